@@ -5,7 +5,7 @@ import os
 VERIF = os.path.dirname(os.path.dirname(os.path.abspath(__file__)))
 
 HOOK_COMMITS = ["b9d4bd0", "034d117", "c156e58"]
-FIX_COMMITS = ["d307ba7", "1245628", "e2789dc", "37d0178", "8d97c84", "106b808", "4ace02c", "398b1f9", "8e20502", "758bf79", "bcb9d1c", "736daa9", "680eb52", "15107c2", "4063672", "617df8f", "9d2bbf4", "e5013fd"]
+FIX_COMMITS = ["d307ba7", "1245628", "e2789dc", "37d0178", "8d97c84", "106b808", "4ace02c", "398b1f9", "8e20502", "758bf79", "bcb9d1c", "736daa9", "680eb52", "15107c2", "4063672", "617df8f", "9d2bbf4", "e5013fd", "66a999c", "2a265e3"]
 
 TRUST = ("TLC 1.8 and the TLA+ reference modules (cross-validated against gcc 12 / gfortran / git where an "
          "external tool exists); the Python harness only materialises TLC-generated cases, reformats traces and "
@@ -180,6 +180,19 @@ CHECKS["C13"] = dict(
          "reading of `file` and relative -I (disagreement above 2% aborts with exit 2); a finder.find run checks that only "
          "the kept entries' files and the header they include are attributed.",
     design="3/C13")
+
+CHECKS["C12"] = dict(
+    technique="TLA+ interpreter of the compiler-configuration language (CompilerCfg.Parse) + implementation model of "
+              "the per-process compiler table processing a history of commands (GenCompilerCfg), checked by TLC; "
+              "TLC-simulated configurations x histories replayed into config.ArgumentParser in one process",
+    text="TLC checks on simulated configurations and command histories that every command's result equals the "
+         "interpreter's result on the original table (history independence) and that alias resolution always ends in ok / "
+         "loop / unknown target; each generated .cbi/config (three custom actions, defaults, override, implicit options, "
+         "modes, passes, alias chains/cycles/dangling) is written as TOML and the real ArgumentParser processes the history "
+         "in one process; passes, per-pass defines / include paths / include files and the reporting of alias and "
+         "unknown-compiler outcomes are compared with the specification. The built-in definition files are exercised only "
+         "through C11's compiler names, not interpreted by the specification. Sampled, not exhaustive.",
+    design="3/C12")
 
 PENDING_REASON = "check not built yet (build in progress; see DESIGN.md section 7)"
 
